@@ -334,10 +334,10 @@ PROPS['C13'] = {
                 kind='bounded', timeout=1800, unwindset=['memcmp.0:8'], functions=[('sdk/src/utils/hash_utils.rs', 'hash_stream_by_alg_with_progress_impl')],
                 stubs=['Hasher::update -> byte log', 'Hasher::finalize -> constant', 'thread spawn / mpsc channel / send / recv -> assume(false)', 'catch_unwind -> call']),
               B('native:range_hash_exact', 'sdk', [T('c13_range_hash_exact_small_domain'), T('c13_chunk_size_independence')], functions=[('sdk/src/utils/hash_utils.rs', 'hash_stream_by_alg_with_progress_impl')],
-                bounds='data length 0..=5 (7), pairs of ranges with start,len in 0..=len+1 plus {2^32,2^63,2^64-1}, optional marker(s), both modes, buffer sizes {1,2^20} (thorough {1,2,3,2^20}; 3 algorithms); chunking: data length 1..=24 (40), one range, every buffer size 1..=length+1')],
+                bounds='data length 0..=5 (7), pairs of ranges with start,len in 0..=len+1 plus {2^32,2^63,2^64-1}, optional marker(s), both modes, buffer sizes {1,2^20} (thorough {1,2,3,2^20}; 3 algorithms); chunking: data length 1..=24 (32), one range, every buffer size 1..=length+1')],
     'trusted_base': TB_KANI + ['the reference function `reference()` in kani/hash_utils.rs (the statement, executable)'],
     'rule': 'evaluations = CBMC checks decided + native (data, ranges, mode, alg, buffer) tuples compared with the reference digest; non-trivial = at least one non-empty in-range range',
-    'not_covered': ['schedules quantifier beyond what native threads happen to do', 'streams longer than 7 bytes with more than one range (one range: 40 bytes)', 'more than 3 ranges'],
+    'not_covered': ['schedules quantifier beyond what native threads happen to do', 'streams longer than 7 bytes with more than one range (one range: 32 bytes)', 'more than 3 ranges'],
 }
 
 
